@@ -497,6 +497,47 @@ sys.exit(0 if last[2] is {exp!r} else 1)
     return evals
 
 
+def hash_agreement_small_ids(rep):
+    """Bounded (E3): equal descriptors hash equal, for identifier tuples that contain 0 (falsy) next to one or two placeholders
+    at every position, and every proper symmetry operation of the class (exhaustive over these)."""
+    import importlib
+    import itertools
+
+    sd = importlib.import_module("stereomolgraph.stereodescriptors")
+    t = time.time()
+    evals, fail = 0, None
+    for cname in CLASSES:
+        n = len(FIGS[cname])
+        Gp, Gm = groups(cname)
+        free = [i for i in range(n) if i not in CENTRES[cname]]
+        for k_none in (1, 2):
+            for none_pos in itertools.combinations(free, k_none):
+                for zero_pos in [i for i in range(n) if i not in none_pos]:
+                    ids = iter(range(1, n + 1))
+                    s = tuple(None if i in none_pos else (0 if i == zero_pos else next(ids)) for i in range(n))
+                    for p in [q for q in PARITIES[cname] if q is not None]:
+                        for g in sorted(Gp):
+                            o = tuple(s[g[i]] for i in range(n))
+                            a, b = getattr(sd, cname)(s, p), getattr(sd, cname)(o, p)
+                            evals += 1
+                            try:
+                                bad = (a == b) is not True or hash(a) != hash(b)
+                            except Exception as e:  # noqa
+                                bad = True
+                            if bad and fail is None:
+                                fail = (cname, s, o, p)
+    name = "C04/bounded/equal-descriptors-hash-equal/identifier-0-next-to-placeholders"
+    if fail is None:
+        rep.add(Ob(name, "bounded", DISCHARGED, "exec", time.time() - t, evaluations=evals))
+    else:
+        cname, s_, o_, p_ = fail
+        code = (f"from stereomolgraph import stereodescriptors as sd\na, b = sd.{cname}({s_!r}, {p_!r}), sd.{cname}({o_!r}, {p_!r})\nprint(a, b, a == b, hash(a), hash(b))\n"
+                "ok = (a == b) is True and hash(a) == hash(b)\nprint('property holds on this case' if ok else 'VIOLATION reproduced')\nsys.exit(0 if ok else 1)\n")
+        rep.add(Ob(name, "bounded", FAILED, "exec", time.time() - t, evaluations=evals,
+                   detail=f"{cname}({s_},{p_}) and its image {cname}({o_},{p_}) under a symmetry operation of the class: equal but hashes differ (or not equal)", replay_code=code))
+    return evals
+
+
 def cross_validate(rep, world, seed, n):
     rep.traces_validated = 0
     """CPython cross-validation of the encoding: on random concrete inputs the symbolic path whose
@@ -601,6 +642,7 @@ def run(tier, seed):
         nval += extra or 0
     rep.traces_validated = nval
     nseq = sequence_check(rep, seed, 4000 if tier == "quick" else 60000)
+    nseq += hash_agreement_small_ids(rep)
     rep.trusted_base = [
         "pyvc encoding of CPython semantics for the constructs used (tuples, sets, frozenset, Counter, generator expressions, any/all, attribute lookup along the MRO); cross-validated against CPython on this run",
         "oracle groups computed numerically (Kabsch/SVD, tolerance 1e-8) from the idealised figures in vf/spec/groups.py",
